@@ -104,6 +104,7 @@ type Gen struct {
 	cellMods     map[string]map[int]bool // per struct cell: top-level fields written in the loop being analysed (-1: whole)
 	cellT        map[string]types.Type   // Go type held by a cell
 	cellPaths    map[string][][]pathStep // per struct cell: full field paths written in the loop being analysed
+	initOnlyUsed map[string]bool         // init-only fields whose frame was assumed across a coarse call
 	lookupPos    token.Pos // source position contract names are resolved at (scoping)
 }
 
@@ -458,14 +459,29 @@ func (g *Gen) havocAll(st *State, why string) {
 		names = append(names, n)
 	}
 	sort.Strings(names)
+	allocBefore := g.heapGet(st, "$alloc")
+	if g.initOnlyUsed == nil {
+		g.initOnlyUsed = map[string]bool{}
+	}
 	for _, n := range names {
 		if strings.HasPrefix(n, "cell.") && !g.escaped[n] {
 			continue // local variable whose address never escapes
+		}
+		if strings.HasPrefix(n, "GI.") {
+			continue // package-level variable that is never written outside init
 		}
 		if n == "$alloc" {
 			old := g.heapGet(st, n)
 			nw := g.heapHavoc(st, n)
 			g.assume(fmt.Sprintf("(<= %s %s)", old, nw))
+			continue
+		}
+		if g.E.fieldIsInitOnly(n) {
+			// a field that is only ever written on freshly allocated objects: objects that exist now keep it
+			old := g.heapGet(st, n)
+			nw := g.heapHavoc(st, n)
+			g.assume(fmt.Sprintf("(forall ((r Int)) (! (=> (and (< r %s) (< (ref.root r) %s)) (= (select %s r) (select %s r))) :pattern ((select %s r))))", allocBefore, allocBefore, nw, old, nw))
+			g.initOnlyUsed[n] = true
 			continue
 		}
 		g.heapHavoc(st, n)
